@@ -37,11 +37,18 @@ type Leaf struct {
 	TLS               tls.Certificate
 }
 
+// Validity is a fixed, wide interval so that the material is also accepted on the virtual clock of a
+// testing/synctest bubble (which starts at 2000-01-01).
+var (
+	notBefore = time.Date(1990, 1, 1, 0, 0, 0, 0, time.UTC)
+	notAfter  = time.Date(2090, 1, 1, 0, 0, 0, 0, time.UTC)
+)
+
 var serial int64 = 1000
 
 func nextSerial() *big.Int { serial++; return big.NewInt(serial) }
 
-// NewCA creates a self-signed CA valid from one day before notBefore's default (now) for ten years.
+// NewCA creates a self-signed CA.
 func NewCA(commonName string) (*CA, error) {
 	key, err := ecdsa.GenerateKey(elliptic.P256(), rand.Reader)
 	if err != nil {
@@ -50,8 +57,8 @@ func NewCA(commonName string) (*CA, error) {
 	tmpl := &x509.Certificate{
 		SerialNumber:          nextSerial(),
 		Subject:               pkix.Name{CommonName: commonName},
-		NotBefore:             time.Now().Add(-24 * time.Hour),
-		NotAfter:              time.Now().Add(10 * 365 * 24 * time.Hour),
+		NotBefore:             notBefore,
+		NotAfter:              notAfter,
 		KeyUsage:              x509.KeyUsageCertSign | x509.KeyUsageDigitalSignature,
 		BasicConstraintsValid: true,
 		IsCA:                  true,
@@ -84,8 +91,8 @@ func (ca *CA) Issue(commonName string, hosts ...string) (*Leaf, error) {
 	tmpl := &x509.Certificate{
 		SerialNumber: nextSerial(),
 		Subject:      pkix.Name{CommonName: commonName},
-		NotBefore:    time.Now().Add(-24 * time.Hour),
-		NotAfter:     time.Now().Add(5 * 365 * 24 * time.Hour),
+		NotBefore:    notBefore,
+		NotAfter:     notAfter,
 		KeyUsage:     x509.KeyUsageDigitalSignature,
 		ExtKeyUsage:  []x509.ExtKeyUsage{x509.ExtKeyUsageServerAuth, x509.ExtKeyUsageClientAuth},
 	}
